@@ -16,6 +16,7 @@ import (
 	"mellium.im/xmpp"
 	"mellium.im/xmpp/jid"
 	"mellium.im/xmpp/stream"
+	"mellium.im/xmpp/websocket"
 
 	"verifharness/common"
 )
@@ -62,7 +63,18 @@ func Unbalanced(ts []xml.Token) bool {
 func isWS(s string) bool { return strings.Trim(s, " \t\r\n") == "" }
 
 // streamLevel classifies a token that must never reach a handler ("" = ordinary).
-func streamLevel(t xml.Token) string {
+func streamLevel(t xml.Token) string { return streamLevelWS(t, false) }
+
+// streamLevelWS is streamLevel on a session with the WebSocket flag ws: there the framing
+// elements are stream-level too: <close/> is the peer's closing element, any other element of
+// the framing namespace (<open/>) a stream restart (RFC 7395 3.4, 3.6).
+func streamLevelWS(t xml.Token, ws bool) string {
+	if st, ok := t.(xml.StartElement); ok && ws && st.Name.Space == NSFraming {
+		if st.Name.Local == "close" {
+			return "close"
+		}
+		return "restart"
+	}
 	switch tt := t.(type) {
 	case xml.Comment:
 		return "comment"
@@ -141,12 +153,14 @@ type expectation struct {
 	end   string // clean | decoder | chardata | comment | … | se (received stream error) | bad-state
 }
 
-func expect(toks []xml.Token) expectation {
+func expect(toks []xml.Token) expectation { return expectWS(toks, false) }
+
+func expectWS(toks []xml.Token, ws bool) expectation {
 	var ex expectation
 	i := 0
 	for i < len(toks) {
 		t := toks[i]
-		if c := streamLevel(t); c != "" {
+		if c := streamLevelWS(t, ws); c != "" {
 			if c == "close" {
 				ex.end = "clean"
 			} else {
@@ -170,8 +184,15 @@ func expect(toks []xml.Token) expectation {
 			j := i + 1
 			closed := false
 			for ; j < len(toks); j++ {
-				if c := streamLevel(toks[j]); c != "" {
+				if c := streamLevelWS(toks[j], ws); c != "" {
 					e.dirty = endClass(c, toks, j)
+					if c == "close" {
+						// only a top-level <close/> is the peer's closing element; inside another
+						// element it is as out of place as any other framing element: the
+						// handler's view must end with an error there (not with an early end of
+						// the element) and the session with it
+						e.dirty = "restart"
+					}
 					break
 				}
 				e.body = append(e.body, toks[j])
@@ -245,12 +266,21 @@ type Pend struct {
 	ID    string
 	Name  xml.Name
 	Reads int
+	// Fate: "" = the call is still waiting when the input is served; "f" = its transmission
+	// failed (the output is closed or broken: only with closed0 / PreBroken) and the call returned the error;
+	// "g" = the request went out and the caller gave up waiting (its context ended) before the
+	// input is served.  In both cases nobody waits for a response any more.
+	Fate string
 }
 
 func encPends(ps []Pend) (string, string) {
 	var pf, rf []string
 	for _, p := range ps {
-		pf = append(pf, fmt.Sprintf("%x=%x=%x", p.ID, p.Name.Space, p.Name.Local))
+		x := fmt.Sprintf("%x=%x=%x", p.ID, p.Name.Space, p.Name.Local)
+		if p.Fate != "" {
+			x += "=" + p.Fate
+		}
+		pf = append(pf, x)
 		rf = append(rf, fmt.Sprint(p.Reads))
 	}
 	return common.Join(pf, ","), common.Join(rf, ",")
@@ -264,13 +294,16 @@ func decPends(pd, rd string) []Pend {
 	reads := strings.Split(rd, ",")
 	for i, x := range strings.Split(pd, ",") {
 		f := strings.Split(x, "=")
-		if len(f) != 3 {
+		if len(f) != 3 && len(f) != 4 {
 			continue
 		}
 		a, _ := unhexF(f[0])
 		b, _ := unhexF(f[1])
 		d, _ := unhexF(f[2])
 		p := Pend{ID: a, Name: xml.Name{Space: b, Local: d}, Reads: -1}
+		if len(f) == 4 {
+			p.Fate = f[3]
+		}
 		if i < len(reads) {
 			fmt.Sscanf(reads[i], "%d", &p.Reads)
 		}
@@ -293,12 +326,43 @@ func startPends(pends []Pend, delivered *[]string, mu *sync.Mutex) func(s *xmpp.
 		cctx, cancel := context.WithCancel(context.Background())
 		for _, p := range pends {
 			p := p
+			st := xml.StartElement{Name: p.Name, Attr: []xml.Attr{{Name: name("type"), Value: "get"}, {Name: name("id"), Value: p.ID}, {Name: name("to"), Value: "peer@example.net"}}}
+			q := xml.StartElement{Name: xml.Name{Space: "urn:q", Local: "q"}}
+			switch p.Fate {
+			case "f":
+				// the transmission fails: the output has been closed or was left inside an element
+				// (caseOpt.closed0 / Opts.PreBroken), the call returns that error
+				fctx, stop := context.WithTimeout(context.Background(), 3*time.Second)
+				if resp, err := s.SendIQ(fctx, xmlstream.Wrap(xmlstream.Wrap(nil, q), st)); err == nil && resp != nil {
+					resp.Close()
+				}
+				stop()
+				continue
+			case "g":
+				// the request goes out, then the caller's context ends: the call returns
+				gctx, giveUp := context.WithCancel(context.Background())
+				want := out.Len()
+				ret := make(chan struct{})
+				go func() {
+					defer close(ret)
+					if resp, err := s.SendIQ(gctx, xmlstream.Wrap(xmlstream.Wrap(nil, q), st)); err == nil && resp != nil {
+						resp.Close()
+					}
+				}()
+				for i := 0; i < 5000 && out.Len() == want; i++ {
+					time.Sleep(200 * time.Microsecond)
+				}
+				giveUp()
+				select {
+				case <-ret:
+				case <-time.After(5 * time.Second):
+				}
+				continue
+			}
 			wg.Add(1)
 			want := out.Len()
 			go func() {
 				defer wg.Done()
-				st := xml.StartElement{Name: p.Name, Attr: []xml.Attr{{Name: name("type"), Value: "get"}, {Name: name("id"), Value: p.ID}, {Name: name("to"), Value: "peer@example.net"}}}
-				q := xml.StartElement{Name: xml.Name{Space: "urn:q", Local: "q"}}
 				resp, err := s.SendIQ(cctx, xmlstream.Wrap(xmlstream.Wrap(nil, q), st))
 				if err != nil || resp == nil {
 					return
@@ -329,8 +393,9 @@ func (c *ctx) checkO(co caseOpt, ns string, body []byte, progs []Prog, class str
 	r := c.r
 	local, remote := addrs(ns)
 	toks := Tokens(ns, body)
-	anyClose := closed0
-	partial := false
+	ws := co.opt.WS
+	anyClose := closed0 || co.opt.PreBroken
+	partial := co.opt.PreBroken
 	for _, p := range progs {
 		anyClose = anyClose || p.Close || p.Dls() != ""
 		var w []xml.Token
@@ -348,24 +413,53 @@ func (c *ctx) checkO(co caseOpt, ns string, body []byte, progs []Prog, class str
 	}
 	var mu sync.Mutex
 	var deliveredIDs []string
-	if len(co.pends) > 0 {
-		before = startPends(co.pends, &deliveredIDs, &mu)
+	allOver := true
+	for _, p := range co.pends {
+		allOver = allOver && p.Fate != ""
 	}
+	if len(co.pends) > 0 {
+		sp := startPends(co.pends, &deliveredIDs, &mu)
+		first := before
+		before = func(s *xmpp.Session, out *common.SafeBuffer) func() {
+			if first != nil {
+				first(s, out)
+			}
+			return sp(s, out)
+		}
+	}
+	// the protocol line names the table of requests unless the case also has a closed / broken
+	// output and no request is waiting any more (the table is empty then: `servex`)
+	usePW := len(co.pends) > 0 && !(anyClose && allOver)
 	res := ServeOpt(co.opt, ns, local, remote, body, progs, nil, before)
 	line := CaseLine(ns, res.LocalBare, toks, progs)
 	if anyClose {
 		cf := common.B(closed0)
+		if co.opt.PreBroken && !closed0 {
+			cf = "2"
+		}
 		if co.opt.PreDl != "" {
 			cf += "d" + co.opt.PreDl
 		}
 		line = "servex " + cf + strings.TrimPrefix(line, "serve")
 	}
 	pd, rd := encPends(co.pends)
-	if len(co.pends) > 0 {
+	if usePW {
 		line = strings.Join([]string{"servepw", NsField(ns), common.HexS(res.LocalBare), JidMap(toks), pd, rd, common.EncToks(toks), EncProgs(progs)}, " ")
 	}
+	line = MarkWS(line, ws)
 	lines := []string{r.Prop + " " + line, "#body " + common.Hex(body), "#opts " + co.opt.Enc() + " " + pd + " " + rd}
 	els, closed, werr := Written(ns, res.Out)
+	if co.opt.PreBroken {
+		// the start tag of the abandoned transmission sat in the encoder's buffer and reaches the
+		// wire with the next flush: it is not something Serve wrote
+		var kept []Elem
+		for _, e := range els {
+			if e.ID != "abandoned" {
+				kept = append(kept, e)
+			}
+		}
+		els = kept
+	}
 	closed = closed || closed0
 	wobs, cond := WrittenObs(els)
 	cls := ErrClass(res.Err)
@@ -379,7 +473,7 @@ func (c *ctx) checkO(co caseOpt, ns string, body []byte, progs []Prog, class str
 		r.Fail("no-panic", "panic", lines, res.Panic)
 		return
 	}
-	if len(co.pends) > 0 {
+	if usePW {
 		mu.Lock()
 		var dl []string
 		for _, d := range deliveredIDs {
@@ -390,11 +484,18 @@ func (c *ctx) checkO(co caseOpt, ns string, body []byte, progs []Prog, class str
 	} else {
 		r.Line(line, fmt.Sprintf("%s %s %s", EncInvs(res.Invs), wobs, cls))
 	}
-	ex := expect(toks)
+	ex := expectWS(toks, ws)
 	// responses that belong to a pending local request go to its waiter, not to the handler:
 	// the first top-level element of type result/error whose id is that of a request still
 	// pending and whose name is the request's (or the request's was unqualified)
-	table := append([]Pend(nil), co.pends...)
+	// (a request whose transmission failed or whose caller gave up waiting is not pending: a
+	// response that carries its id is handled like any other element)
+	var table []Pend
+	for _, p := range co.pends {
+		if p.Fate == "" {
+			table = append(table, p)
+		}
+	}
 	var toWaiter []bool
 	for _, e := range ex.elems {
 		typ, id := attrVal(e.start.Attr, "type"), attrVal(e.start.Attr, "id")
@@ -437,6 +538,9 @@ func (c *ctx) checkO(co caseOpt, ns string, body []byte, progs []Prog, class str
 	wantN := len(handled)
 	wantEnd := ex.end
 	st := "open"
+	if co.opt.PreBroken {
+		st = "broken"
+	}
 	if closed0 {
 		st = "closed"
 	}
@@ -468,6 +572,13 @@ func (c *ctx) checkO(co caseOpt, ns string, body []byte, progs []Prog, class str
 		}
 		typ := attrVal(e.start.Attr, "type")
 		needs := e.start.Name.Local == "iq" && (e.start.Name.Space == NSClient || e.start.Name.Space == NSServer) && (typ == "get" || typ == "set")
+		// a handler that returns with an element of its own still open (or after an end tag the
+		// encoder refused) leaves the stream inside an element; one that tried to write after an
+		// abandoned Send had left it there: the session ends before anything else is looked at
+		if (st == "open" && Unbalanced(w)) || (st == "broken" && len(w) > 0) {
+			wantN, wantEnd = k+1, "output-broken"
+			break
+		}
 		if needs {
 			// a get/set IQ whose from does not parse cannot be answered: the session ends with
 			// the parse error (the handlers of this runner never write a reply)
@@ -488,9 +599,6 @@ func (c *ctx) checkO(co caseOpt, ns string, body []byte, progs []Prog, class str
 		if st == "broken" && needs {
 			wantN, wantEnd = k+1, "output-broken"
 			break
-		}
-		if st == "open" && Unbalanced(w) {
-			st = "broken"
 		}
 		if e.dirty != "" {
 			break // the element itself ends the session (ex.end)
@@ -532,7 +640,7 @@ func (c *ctx) checkO(co caseOpt, ns string, body []byte, progs []Prog, class str
 		}
 		// nothing stream-level is ever visible
 		for _, t := range inv.Toks {
-			if c := streamLevel(t); c != "" {
+			if c := streamLevelWS(t, ws); c != "" {
 				fail("stream-level-hidden", "visible/"+c, fmt.Sprintf("invocation %d saw %s", k, common.EncTok(t)))
 			}
 		}
@@ -576,6 +684,114 @@ func (c *ctx) checkO(co caseOpt, ns string, body []byte, progs []Prog, class str
 	}
 	// the handlers of this property write only what their program says: nothing else is
 	// written except the default replies of C07 (not judged here)
+}
+
+// wsReal serves `body` on a session negotiated end to end by the websocket package's own
+// negotiator (RFC 7395 framing: the peer answers <open/> with <open/> and an empty feature
+// list): no stream header wraps the input, every element declares its own namespaces, the
+// peer ends the stream with <close/>.  Same protocol line, observation and oracle as the
+// sessions whose WebSocket flag the harness sets itself.
+func (c *ctx) wsReal(body string, progs []Prog, class string) {
+	r := c.r
+	open := `<open xmlns="` + NSFraming + `" from="example.com" id="wsid" version="1.0" xml:lang="en"/>` +
+		`<stream:features xmlns:stream="` + NSStream + `"></stream:features>`
+	out := &common.SafeBuffer{}
+	neg := websocket.Negotiator(func(*xmpp.Session, *xmpp.StreamConfig) xmpp.StreamConfig { return xmpp.StreamConfig{} })
+	var s *xmpp.Session
+	var err error
+	okNeg := common.WithTimeout(5*time.Second, func() {
+		s, err = xmpp.NewSession(context.Background(), RemoteJID, LocalJID, rwPair{strings.NewReader(open + body), out}, xmpp.Secure, neg)
+	})
+	if !okNeg || err != nil || s == nil {
+		r.Hist["websocket-real/negotiation-failed"]++
+		return
+	}
+	var res Result
+	res.LocalBare = s.LocalAddr().Bare().String()
+	k := 0
+	rec := xmpp.HandlerFunc(func(t xmlstream.TokenReadEncoder, start *xml.StartElement) error {
+		p := Prog{Ret: "ok"}
+		if k < len(progs) {
+			p = progs[k]
+		}
+		k++
+		res.Invs = append(res.Invs, Invocation{Start: start.Copy()})
+		return Exec(p, t, &res.Invs[len(res.Invs)-1])
+	})
+	skip := out.Len()
+	done := common.WithTimeout(10*time.Second, func() {
+		res.Panic = common.Recover(func() { res.Err = s.Serve(rec) })
+	})
+	// the tokens of the body as the session's decoder sees them (no enclosing stream element)
+	var toks []xml.Token
+	d := xml.NewDecoder(strings.NewReader(body))
+	for {
+		t, e := d.Token()
+		if e != nil {
+			break
+		}
+		toks = append(toks, xml.CopyToken(t))
+	}
+	line := MarkWS(CaseLine(NSClient, res.LocalBare, toks, progs), true)
+	lines := []string{r.Prop + " " + line, "#wsreal " + common.HexS(body)}
+	switch {
+	case !done:
+		r.Line(line, "STALL")
+		r.Fail("terminates", "stall", lines, "Serve did not return")
+		return
+	case res.Panic != "":
+		r.Line(line, "PANIC")
+		r.Fail("no-panic", "panic", lines, res.Panic)
+		return
+	}
+	// what Serve wrote, without the closing element of the framing
+	o := string(out.Bytes()[skip:])
+	wsClosed := false
+	if i := strings.LastIndex(o, "<close"); i >= 0 && strings.Contains(o[i:], NSFraming) {
+		o, wsClosed = o[:i], true
+	}
+	els, _, _ := Written(NSClient, []byte(o))
+	wobs, _ := WrittenObs(els)
+	cls := ErrClass(res.Err)
+	r.Line(line, fmt.Sprintf("%s %s %s", EncInvs(res.Invs), wobs, cls))
+	ex := expectWS(toks, true)
+	r.Case(line, true, class+"/"+ex.end)
+	if len(res.Invs) != len(ex.elems) {
+		r.Fail("one-per-element", "count", lines, fmt.Sprintf("%d invocations, want %d", len(res.Invs), len(ex.elems)))
+	}
+	for k, inv := range res.Invs {
+		for _, t := range inv.Toks {
+			if c := streamLevelWS(t, true); c != "" {
+				r.Fail("stream-level-hidden", "visible/"+c, lines, fmt.Sprintf("invocation %d saw %s", k, common.EncTok(t)))
+			}
+		}
+		if c := streamLevelWS(inv.Start, true); c != "" {
+			r.Fail("stream-level-hidden", "visible/"+c, lines, fmt.Sprintf("invocation %d started at %s", k, common.EncTok(inv.Start)))
+		}
+		// from normalisation: the content namespace of a WebSocket stream is jabber:client
+		if k < len(ex.elems) {
+			want := ex.elems[k].start.Copy()
+			if (want.Name.Local == "iq" || want.Name.Local == "message" || want.Name.Local == "presence") && want.Name.Space == NSClient {
+				for i, a := range want.Attr {
+					if a.Name.Local == "from" && a.Name.Space == "" {
+						if a.Value == res.LocalBare {
+							want.Attr[i].Value = ""
+						}
+						break
+					}
+				}
+			}
+			if common.EncTok(want) != common.EncTok(inv.Start) {
+				r.Fail("from-blank", "start/websocket", lines, fmt.Sprintf("invocation %d started at %s, want %s", k, common.EncTok(inv.Start), common.EncTok(want)))
+			}
+		}
+	}
+	if !sameClass(ex.end, cls) {
+		r.Fail("ends-with", "end/websocket", lines, fmt.Sprintf("Serve returned %q (%v), want class %s", cls, res.Err, ex.end))
+	}
+	if !wsClosed {
+		r.Fail("closing-tag", "not-closed", lines, "no <close/> written")
+	}
 }
 
 // header runs a real negotiation (xmpp.NewNegotiator with the default configuration) against
@@ -706,6 +922,9 @@ var factKinds = []struct{ name, xml string }{
 	{"close", `</stream:stream>`},
 	{"framing-open", `<open xmlns="` + NSFraming + `"/>`},
 	{"framing-close", `<close xmlns="` + NSFraming + `"/>`},
+	{"framing-other", `<stream xmlns="` + NSFraming + `"/>`},
+	{"framing-close-attrs", `<f:close xmlns:f="` + NSFraming + `" see-other-uri="wss://o.example/"/>`},
+	{"close-other-ns", `<close xmlns="urn:other"/>`},
 	// received stream errors that carry an application-specific condition (RFC 6120 4.9.4)
 	{"se-app-after", `<stream:error><conflict xmlns="` + NSStreams + `"/><replaced-by-new-login xmlns="urn:example"/></stream:error>`},
 	{"se-app-first", `<stream:error><app xmlns="urn:example"><detail>x</detail></app><host-gone xmlns="` + NSStreams + `"/></stream:error>`},
@@ -719,8 +938,82 @@ var factKinds = []struct{ name, xml string }{
 // depth 0/1/2 of an established stream, and real negotiations on kind-before-header, and
 // renders the observed verdicts.
 func verdictFacts() string {
-	var rows []string
-	ok := true
+	rows, ok := verdictGrid(false)
+	wrows, wok := verdictGrid(true)
+	var sb strings.Builder
+	if !ok {
+		sb.WriteString("def readerVerdicts : Option (List (String × Nat × String)) := none\n")
+	} else {
+		sb.WriteString("/-- verdict of the real stream reader on an established stream for every token kind at nesting\ndepth 0, 1, 2 (observed through real sessions) -/\ndef readerVerdicts : Option (List (String × Nat × String)) := some [\n  " + strings.Join(rows, ",\n  ") + "]\n")
+	}
+	if !wok {
+		sb.WriteString("\ndef readerVerdictsWs : Option (List (String × Nat × String)) := none\n")
+	} else {
+		sb.WriteString("\n/-- the same grid on sessions that use the WebSocket subprotocol -/\ndef readerVerdictsWs : Option (List (String × Nat × String)) := some [\n  " + strings.Join(wrows, ",\n  ") + "]\n")
+	}
+	sb.WriteString(headerFacts())
+	sb.WriteString(deadlineFacts())
+	return sb.String()
+}
+
+// deadlineFacts runs real sessions whose first handler makes every sequence of up to three
+// SetCloseDeadline calls (1 = a time in the future, 2 = in the past, 3 = in the near future and
+// wait until it has passed) and observes whether the session's input context has ended when the
+// handler returns: Serve then gives up with the deadline error before the second element.
+func deadlineFacts() string {
+	var seqs []string
+	var rec func(p string)
+	rec = func(p string) {
+		seqs = append(seqs, p)
+		if len(p) == 3 {
+			return
+		}
+		for _, d := range []string{"1", "2", "3"} {
+			rec(p + d)
+		}
+	}
+	rec("")
+	rows := make([]string, len(seqs))
+	okAll := true
+	var wg sync.WaitGroup
+	var mu sync.Mutex
+	for i, q := range seqs {
+		i, q := i, q
+		wg.Add(1)
+		go func() {
+			defer wg.Done()
+			res := Serve(NSClient, LocalJID, RemoteJID, []byte(`<message id="d1"/><message id="d2"/></stream:stream>`), []Prog{{Ret: "ok", DlSeq: q}}, nil)
+			cls := ErrClass(res.Err)
+			var v string
+			switch {
+			case res.Panic != "" || res.Stall:
+			case cls == "deadline" && len(res.Invs) == 1:
+				v = "true"
+			case cls == "clean" && len(res.Invs) == 2:
+				v = "false"
+			}
+			var el []string
+			for _, c := range q {
+				el = append(el, string(c))
+			}
+			mu.Lock()
+			if v == "" {
+				okAll = false
+			}
+			rows[i] = fmt.Sprintf("([%s], %s)", strings.Join(el, ", "), v)
+			mu.Unlock()
+		}()
+	}
+	wg.Wait()
+	if !okAll {
+		return "\ndef deadlineVerdicts : Option (List (List Nat × Bool)) := none\n"
+	}
+	return "\n/-- has the input context of a real session ended after its handler made this sequence of\nSetCloseDeadline calls (1 future, 2 past, 3 near future and wait): all sequences of length <= 3 -/\ndef deadlineVerdicts : Option (List (List Nat × Bool)) := some [\n  " + strings.Join(rows, ",\n  ") + "]\n"
+}
+
+// verdictGrid is the grid token kind x depth of verdictFacts on sessions with the WebSocket flag ws.
+func verdictGrid(ws bool) (rows []string, ok bool) {
+	ok = true
 	for _, k := range factKinds {
 		for depth := 0; depth <= 2; depth++ {
 			if k.name == "close" && depth > 0 {
@@ -738,7 +1031,7 @@ func verdictFacts() string {
 			// the handler of the wrapping element reads through the token under test and
 			// ignores errors; at depth 0 there is no wrapping element
 			progs := []Prog{progReads(depth+2, "ok"), progReads(0, "ok"), progReads(0, "ok")}
-			res := Serve(NSClient, LocalJID, RemoteJID, []byte(body), progs, nil)
+			res := ServeOpt(Opts{FailAfter: -1, WS: ws}, NSClient, LocalJID, RemoteJID, []byte(body), progs, nil, nil)
 			v := ""
 			cls := ErrClass(res.Err)
 			switch {
@@ -771,13 +1064,12 @@ func verdictFacts() string {
 			rows = append(rows, fmt.Sprintf("(%q, %d, %q)", k.name, depth, v))
 		}
 	}
+	return rows, ok
+}
+
+// headerFacts: while a stream header is expected (negotiating): what may precede the header
+func headerFacts() string {
 	var sb strings.Builder
-	if !ok {
-		sb.WriteString("def readerVerdicts : Option (List (String × Nat × String)) := none\n")
-	} else {
-		sb.WriteString("/-- verdict of the real stream reader on an established stream for every token kind at nesting\ndepth 0, 1, 2 (observed through real sessions) -/\ndef readerVerdicts : Option (List (String × Nat × String)) := some [\n  " + strings.Join(rows, ",\n  ") + "]\n")
-	}
-	// while a stream header is expected (negotiating): what may precede the header
 	var hrows []string
 	neg := xmpp.NewNegotiator(func(*xmpp.Session, *xmpp.StreamConfig) xmpp.StreamConfig { return xmpp.StreamConfig{} })
 	hdr := `<stream:stream xmlns="jabber:client" xmlns:stream="` + NSStream + `" version="1.0" to="example.com">`
@@ -1328,6 +1620,119 @@ func Run(r *common.Run) error {
 		c.checkO(caseOpt{opt: Opts{FailAfter: -1}, pends: two[:1]}, ns, []byte(`<iq type="result" id="p1"><query xmlns="urn:q"><item/><!--c--><item/></query></iq>`+followers[0]+"</stream:stream>"), nil, "pending")
 	}
 
+	// sessions that use the WebSocket subprotocol (RFC 7395): the framing elements are stream
+	// level there -- <close/> is the peer's closing element, <open/> (any other framing element)
+	// a stream restart, at top level and inside elements -- everything else is as on TCP
+	wsItems := []string{
+		" ",
+		`<message id="m1"><body>hi</body></message>`,
+		`<iq type="get" id="g1"><q xmlns="urn:q"/></iq>`,
+		`<x xmlns="urn:x"><y><z/>text</y><y/></x>`,
+		`<open xmlns="` + NSFraming + `" to="example.com" version="1.0"/>`,
+		`<close xmlns="` + NSFraming + `"/>`,
+		`<close xmlns="` + NSFraming + `" see-other-uri="wss://other.example/"></close>`,
+		`<stream xmlns="` + NSFraming + `"/>`,
+		`<message id="m6"><fwd xmlns="urn:f"><close xmlns="` + NSFraming + `"/></fwd><body/></message>`,
+		`<message id="m7"><open xmlns="` + NSFraming + `"/><body/></message>`,
+		`<f:close xmlns:f="` + NSFraming + `"/>`,
+		`<close xmlns="urn:other"/>`,
+		`<!--top-->`,
+		`<stream:error><host-gone xmlns="urn:ietf:params:xml:ns:xmpp-streams"/></stream:error>`,
+		`</stream:stream>`,
+		`junk`,
+	}
+	wsOpt := caseOpt{opt: Opts{FailAfter: -1, WS: true}}
+	for _, ns := range []string{NSClient, NSServer} {
+		for i, a := range append([]string{""}, wsItems...) {
+			for j, b := range wsItems {
+				if ns == NSServer && (i+j)%3 != 0 {
+					continue
+				}
+				for _, tail := range []string{`<close xmlns="` + NSFraming + `"/>`, ""} {
+					for pi, ps := range patterns {
+						if r.Quick() && pi == 1 && (i+j)%2 == 0 {
+							continue
+						}
+						c.checkO(wsOpt, ns, []byte(a+b+tail), ps, "websocket")
+					}
+				}
+			}
+		}
+	}
+	for _, it := range topItems {
+		for _, pre := range []string{"", `<message id="o1"><body>hi</body></message>`} {
+			c.checkO(wsOpt, NSClient, []byte(pre+it+`<presence/><close xmlns="`+NSFraming+`"/>`), patterns[2], "websocket-items")
+		}
+	}
+	r.Exhaustive = append(r.Exhaustive, fmt.Sprintf("WebSocket sessions: all sequences of <= 2 items out of %d (framing open / close / other at depth 0-2, prefixed, look-alikes in other namespaces, ordinary elements, constructs) x closed by <close/> or not x consumption patterns, and every item of the TCP alphabet", len(wsItems)))
+
+	// the same on sessions negotiated end to end by the websocket package
+	{
+		m := func(id string) string {
+			return `<message xmlns="jabber:client" id="` + id + `"><body>hi</body></message>`
+		}
+		cl := `<close xmlns="` + NSFraming + `"/>`
+		op := `<open xmlns="` + NSFraming + `" to="example.com" version="1.0"/>`
+		se := `<stream:error xmlns:stream="` + NSStream + `"><host-gone xmlns="urn:ietf:params:xml:ns:xmpp-streams"/></stream:error>`
+		bodies := []string{
+			cl,
+			m("a") + cl,
+			m("a") + ` ` + m("b") + cl + m("never"),
+			m("a") + op + m("never") + cl,
+			op,
+			`<iq xmlns="jabber:client" type="get" id="g1" from="a@example.org/r"><q xmlns="urn:q"/></iq>` + m("b") + cl,
+			`<message xmlns="jabber:client" id="n1"><fwd xmlns="urn:f">` + cl + `</fwd><body/></message>` + m("never") + cl,
+			`<message xmlns="jabber:client" id="n2">` + op + `<body/></message>` + m("never") + cl,
+			m("a") + `<stream xmlns="` + NSFraming + `"/>` + cl,
+			m("a") + `<close xmlns="urn:other"/>` + m("b") + cl,
+			m("a") + se + m("never"),
+			m("a") + `<!--c-->` + cl,
+			m("a") + `junk` + cl,
+			m("a") + `<presence xmlns="jabber:client" from="me@example.com"/>` + `<f:close xmlns:f="` + NSFraming + `"/>`,
+			// (an input that simply ends between two elements is a clean io.EOF of the decoder on
+			// this framing - no element is open - and not generated here)
+		}
+		for _, b := range bodies {
+			for _, ps := range patterns {
+				c.wsReal(b, ps, "websocket-real")
+			}
+		}
+	}
+	// requests that expect a response and are over when the input is served: the transmission
+	// failed, or the caller gave up waiting.  Nobody waits any more: a response with that id is
+	// an element like any other and goes to the handler, in arrival order
+	for _, ns := range []string{NSClient, NSServer} {
+		for ri, resp := range responses {
+			for fi, fol := range followers {
+				for pi, pn := range []xml.Name{{Local: "iq"}, {Space: ns, Local: "iq"}} {
+					if ns == NSServer && (ri+fi+pi)%2 != 0 {
+						continue
+					}
+					ps := []Prog{progReads(2, "ok"), progReads(40, "ok"), progReads(0, "ok"), progReads(1, "ok")}
+					over := []Pend{{ID: "p1", Name: pn, Reads: -1, Fate: "g"}}
+					c.checkO(caseOpt{opt: Opts{FailAfter: -1}, pends: over}, ns, []byte(`<message id="pre"/>`+resp+fol+"</stream:stream>"), ps, "request-over")
+					// another request is still waiting
+					c.checkO(caseOpt{opt: Opts{FailAfter: -1}, pends: []Pend{{ID: "p2", Name: name("iq"), Reads: 2}, over[0]}}, ns,
+						[]byte(resp+strings.ReplaceAll(responses[0], "p1", "p2")+fol+"</stream:stream>"), ps, "request-over")
+					// the transmission of the request failed: the output was closed / left broken
+					failed := []Pend{{ID: "p1", Name: pn, Reads: -1, Fate: "f"}}
+					fol2 := strings.ReplaceAll(fol, `type="get"`, `type="result"`)
+					c.checkO(caseOpt{closed0: true, opt: Opts{FailAfter: -1}, pends: failed}, ns, []byte(`<message id="pre"/>`+resp+fol2+"</stream:stream>"), ps, "request-failed")
+					c.checkO(caseOpt{opt: Opts{FailAfter: -1, PreBroken: true}, pends: failed}, ns, []byte(resp+fol2+`<presence/>`+resp+"</stream:stream>"), ps, "request-failed")
+				}
+			}
+		}
+	}
+
+	// the output was left inside an element by an abandoned Send before Serve starts: what the
+	// peer sends is served as ever, only an element that needs a reply ends the session
+	for _, it := range topItems {
+		for _, pre := range []string{"", `<message id="o1"><body>hi</body></message>`, `<iq type="get" id="o3"><q xmlns="urn:q"/></iq>`} {
+			for _, tail := range []string{"</stream:stream>", ""} {
+				c.checkO(caseOpt{opt: Opts{FailAfter: -1, PreBroken: true}}, NSClient, []byte(pre+it+tail), patterns[1], "broken-before")
+			}
+		}
+	}
 	// random
 	rnd := r.Rnd
 	n := r.Pick(2500, 40000)
@@ -1358,6 +1763,13 @@ func Run(r *common.Run) error {
 		co := caseOpt{closed0: rnd.Chance(1, 16), opt: Opts{FailAfter: -1}}
 		if rnd.Chance(1, 20) {
 			co.opt.PreDl = []string{"1", "2", "21", "12", "121"}[rnd.Intn(5)]
+		}
+		if rnd.Chance(1, 6) {
+			co.opt.WS = true
+			body = strings.ReplaceAll(body, "</stream:stream>", `<close xmlns="`+NSFraming+`"/>`)
+		}
+		if rnd.Chance(1, 24) && !co.closed0 {
+			co.opt.PreBroken = true
 		}
 		if rnd.Chance(1, 8) {
 			na := []string{"bound@example.org/r2", "me@example.com/x", "example.org", "b2@example.com"}[rnd.Intn(4)]
@@ -1392,7 +1804,7 @@ func Run(r *common.Run) error {
 			if rnd.Chance(1, 3) {
 				pn = xml.Name{Space: []string{NSClient, NSServer}[rnd.Intn(2)], Local: "iq"}
 			}
-			pends = append(pends, Pend{ID: id, Name: pn, Reads: rnd.Intn(8) - 1})
+			pends = append(pends, Pend{ID: id, Name: pn, Reads: rnd.Intn(8) - 1, Fate: []string{"", "", "", "g"}[rnd.Intn(4)]})
 		}
 		c.checkO(caseOpt{opt: Opts{FailAfter: -1}, pends: pends}, ns, []byte(body), ps, "random-pending")
 	}
@@ -1405,6 +1817,22 @@ func (c *ctx) replay(lines []string) error {
 		if len(f) == 2 && f[0] == "#in" && i+1 < len(lines) {
 			in, _ := common.UnHex(f[1])
 			c.header(string(in), strings.HasSuffix(lines[i+1], " 1"))
+			continue
+		}
+		if len(f) == 2 && f[0] == "#wsreal" && i > 0 {
+			b, err := common.UnHex(f[1])
+			if err != nil {
+				return err
+			}
+			g := strings.Fields(lines[i-1])
+			if len(g) < 7 {
+				continue
+			}
+			progs, err := DecProgs(g[6])
+			if err != nil {
+				return err
+			}
+			c.wsReal(string(b), progs, "replay")
 			continue
 		}
 		if len(f) < 2 || f[0] != "#body" || i == 0 {
@@ -1429,7 +1857,7 @@ func (c *ctx) replay(lines []string) error {
 			continue
 		}
 		ns := NSClient
-		if g[2] == "s" {
+		if strings.HasPrefix(g[2], "s") {
 			ns = NSServer
 		}
 		progs, err := DecProgs(g[6])
